@@ -79,7 +79,29 @@ def gen_files(rng, dotted=False):
     paths = list(dict.fromkeys(paths))
     modname = {p: p[:-3].replace("/", ".") for p in paths}
     files = {}
-    shape = rng.choice(["random", "random", "cycle", "chain", "self", "dense", "none"])
+    shape = rng.choice(["random", "random", "cycle", "chain", "self", "dense", "none", "entry", "entry"])
+    if shape == "entry":
+        # a cycle of length 1-3 reached from 1-2 programs OUTSIDE the cycle, named to sort before and/or after its members
+        k = rng.choice([1, 2, 3])
+        members = [f"{rng.choice(['pkg/', '', ''])}{nm}.py" for nm in rng.sample(["m_utils", "n_vectors", "o_core"], k)]
+        outside = rng.sample(["a_main.py", "zz_main.py", "b_entry.py", "pkg/a_first.py", "zz/late.py"], rng.choice([1, 2]))
+        paths = list(dict.fromkeys(outside + members + [p for p in paths if rng.random() < 0.3]))
+        modname = {p: p[:-3].replace("/", ".") for p in paths}
+        files = {}
+        for p in paths:
+            if p in members:
+                i = members.index(p)
+                lines = [f"import {modname[members[(i + 1) % k]]}"]
+                if rng.random() < 0.2:
+                    lines.append(f"import {modname[rng.choice(members)]}")
+            elif p in outside:
+                lines = [rng.choice([f"import {modname[rng.choice(members)]}", f"from {modname[rng.choice(members)]} import f"])]
+                if rng.random() < 0.3:
+                    lines.append(f"import {modname[rng.choice(outside)]}")
+            else:
+                lines = [f"import {modname[rng.choice(paths)]}"] if rng.random() < 0.5 else []
+            files[p] = "\n".join(lines + [rng.choice(BODY)]) + "\n"
+        return files
     order = list(paths)
     for idx, p in enumerate(paths):
         lines = []
@@ -182,6 +204,30 @@ def recording(rec):
         lp.ProgramParser, mdb.Taxonomy = RealParser, RealTaxonomy
 
 
+class Watchdog(BaseException):
+    """Raised in the main thread when a call of the implementation exceeds its deadline."""
+
+
+@contextlib.contextmanager
+def deadline(seconds):
+    """`with deadline(s):` raises Watchdog inside the block after `s` seconds (pure-Python loops are interruptible)."""
+    import signal
+
+    def handler(signum, frame):
+        raise Watchdog()
+
+    old = signal.signal(signal.SIGALRM, handler)
+    signal.setitimer(signal.ITIMER_REAL, seconds)
+    try:
+        yield
+    finally:
+        signal.setitimer(signal.ITIMER_REAL, 0)
+        signal.signal(signal.SIGALRM, old)
+
+
+DEADLINE = 6.0  # seconds; a TagDatabase call on a generated directory takes well under one second
+
+
 def quiet(fn, *a, **k):
     buf = io.StringIO()
     with contextlib.redirect_stdout(buf):
@@ -213,8 +259,12 @@ def run_real(root: Path, out_dir: Path, cleanup="full"):
     rec = Recorder()
     res = {"rec": rec}
     try:
-        with recording(rec):
+        with recording(rec), deadline(DEADLINE):
             db = quiet(TagDatabase, root, ignore_timestamps=True, cleanup_strategy=cleanup)
+    except Watchdog:
+        res["exc"] = "Timeout"
+        res["exc_msg"] = f"TagDatabase did not return within {DEADLINE} s (collecting must terminate for every import graph)"
+        return res
     except RecursionError:
         res["exc"] = "RecursionError"
         return res
@@ -329,7 +379,9 @@ def judge_dir(ctx, drv, files, root, out_dir, cleanup="full"):
     res = run_real(root, out_dir, cleanup)
     if "exc" in res:
         what = f"TagDatabase aborted with {res['exc']}"
-        model = predict_abort(drv, res, root, cleanup)
+        model = predict_abort(drv, res, root, cleanup) if res["exc"] != "Timeout" else {"returns": True}
+        if res["exc"] == "Timeout":
+            what = "TagDatabase does not terminate (watchdog)"
         return {"kind": "violation", "what": what, "impl": {"exc": res["exc"], "msg": res.get("exc_msg")},
                 "model": model, "spec": "C11/C14: a database with one record per program (Props/C11.lean: C11_total)",
                 "signature": None}
@@ -466,7 +518,11 @@ def stream_dirs(ctx, drv, n_dirs):
                 w = judge_dir(ctx, drv, cand, r, r.parent, cleanup)
                 return w["kind"] == kind0 and w["what"].split(" at ")[0] == what0 and w.get("signature") == v.get("signature")
 
-            small = shrink_files(files, still_fails)
+            is_timeout = "terminate" in v["what"]
+            if is_timeout:
+                ctx.dist("dirs.timeout")
+            n_to = ctx.cov["distribution"].get("dirs.timeout", 0)
+            small = files if (is_timeout and n_to > 1) else shrink_files(files, still_fails, budget=6 if is_timeout else 40)
             r = base / f"{name}-min" / "progs"
             write_dir(r, small)
             w = judge_dir(ctx, drv, small, r, r.parent, cleanup)
@@ -480,6 +536,9 @@ def stream_dirs(ctx, drv, n_dirs):
                            "how": "write the files under a fresh directory D; TagDatabase(D, ignore_timestamps=True, "
                                   "cleanup_strategy=cleanup); json.loads(get_json()) / write_sqlite"},
             })
+        if ctx.cov["distribution"].get("dirs.timeout", 0) >= 3:
+            ctx.notes.append("directory stream stopped after three non-terminating directories (each costs a deadline)")
+            break
         # keep the scratch small
         if i % 20 == 19:
             for sub in base.iterdir():
@@ -499,6 +558,11 @@ def fixed_dirs():
                     "pkg/q.py": "def g():\n    return 1\n", "pkg/sub/n.py": "from pkg import q\nimport q\n",
                     "q.py": "import pkg.m\nimport unknown\n", "top.py": "from pkg.sub import n\nfrom pkg.sub.n import z\n"}),
         ("empty", {"a.py": "", "b.py": "import a\n"}),
+        # an entry point outside an import cycle, sorting BEFORE its members (and one sorting after)
+        ("entry-before-cycle", {"main.py": "import utils\n", "utils.py": "import vectors\n", "vectors.py": "import utils\n"}),
+        ("entry-before-self", {"a.py": "import b\n", "b.py": "import b\nx = 1\n", "c.py": "import b\n"}),
+        ("entries-around-cycle3", {"a_main.py": "from n import f\n", "m.py": "import n\n", "n.py": "import o\n",
+                                   "o.py": "import m\n", "zz.py": "import a_main\nimport o\n"}),
         ("dotted-file", {"a.b.py": "x = 1\n", "c.py": "import a.b\n"}),
         ("dotted-dir", {"p.q/m.py": "z = 3\n", "e.py": "import p.q.m\n"}),
         ("hint-uncollected", {"a.py": "x = 1 # paroxython: import_internally:zz\n"}),
@@ -533,13 +597,28 @@ def stream_helpers(ctx, drv):
     # -- closure on random graphs
     sizes = [(n, p) for n in (1, 2, 3, 4, 5, 6, 8) for p in (0.0, 0.15, 0.3, 0.6)] * (2 if quick else 12)
     sizes += [(40, 0.05), (80, 0.03), (150, 0.012)] if quick else [(40, 0.05)] * 5 + [(150, 0.012)] * 5 + [(400, 0.004), (1000, 0.0012)]
-    for (n, p) in sizes:
-        nodes, d = rand_graph(ctx.rng, n, p)
-        try:
-            impl = mdb.complete_and_collect_importations({k: set(v) for k, v in d.items()})
-            impl = [[k, list(v)] for k, v in impl.items()]
-        except RecursionError:
-            impl = "RecursionError"
+    entry_graphs = [
+        {"main.py": {"utils.py"}, "utils.py": {"vectors.py"}, "vectors.py": {"utils.py"}},
+        {"a.py": {"b.py"}, "b.py": {"b.py"}},
+        {"a.py": {"c.py"}, "b.py": {"a.py"}, "c.py": {"d.py"}, "d.py": {"e.py"}, "e.py": {"c.py"}, "z.py": {"e.py", "a.py"}},
+    ]
+    for _ in range(6 if quick else 60):
+        k = ctx.rng.choice([1, 2, 3])
+        cyc = [f"m{j}.py" for j in range(k)]
+        g = {c: {cyc[(j + 1) % k]} for j, c in enumerate(cyc)}
+        for o in ctx.rng.sample(["a0.py", "a1.py", "z0.py", "z1.py"], ctx.rng.choice([1, 2])):
+            g[o] = {ctx.rng.choice(cyc)}
+        entry_graphs.append(dict(sorted(g.items())))
+    for (n, p) in [(None, None)] * len(entry_graphs) + sizes:
+        if n is None:
+            d = entry_graphs.pop(0)
+            nodes = list(d)
+            ctx.dist("graphs.entry_outside_cycle")
+        else:
+            nodes, d = rand_graph(ctx.rng, n, p)
+        if ctx.cov["distribution"].get("graphs.timeout", 0) >= 2:
+            break  # two concrete non-terminating graphs are enough; every further one would cost a deadline
+        impl = closure_impl(mdb, d)
         direct = [[k, sorted(v)] for k, v in d.items()]
         m = drv.call("c11.closure", direct=direct)["r"]
         edges = sum(len(v) for v in d.values())
@@ -547,9 +626,13 @@ def stream_helpers(ctx, drv):
         ctx.dist("graphs.nodes", len(nodes))
         if impl != m:
             ctx.cov["disagreements_checked"] += 1
-            s = drv.call("c11.spec_closure", direct=direct)["r"] if n <= 40 else m
+            s = drv.call("c11.spec_closure", direct=direct)["r"] if len(nodes) <= 40 else m
             if impl != s:
-                small = shrink_graph(d, lambda g: closure_fails(mdb, drv, g))
+                timed_out = isinstance(impl, str) and impl.startswith("Timeout")
+                if timed_out:
+                    ctx.dist("graphs.timeout")
+                # a non-terminating candidate costs a whole deadline: entry graphs are small already, keep them as they are
+                small = d if timed_out else shrink_graph(d, lambda g: closure_fails(mdb, drv, g))
                 ctx.violations.append({
                     "what": "complete_and_collect_importations is not the sorted transitive closure",
                     "replay": {"kind": "closure", "direct": {k: sorted(v) for k, v in small.items()},
@@ -558,7 +641,7 @@ def stream_helpers(ctx, drv):
                                "spec": drv.call("c11.spec_closure", direct=[[k, sorted(v)] for k, v in small.items()])["r"]}})
             else:
                 ctx.broken.append("corr:closure-model-vs-spec")
-        elif n <= 8:
+        elif len(nodes) <= 8:
             s = drv.call("c11.spec_closure", direct=direct)["r"]
             if s != m:
                 ctx.broken.append("corr:closure-model-vs-spec")
@@ -646,8 +729,11 @@ def stream_helpers(ctx, drv):
 
 def closure_impl(mdb, d):
     try:
-        r = mdb.complete_and_collect_importations({k: set(v) for k, v in d.items()})
+        with deadline(3.0):
+            r = mdb.complete_and_collect_importations({k: set(v) for k, v in d.items()})
         return [[k, list(v)] for k, v in r.items()]
+    except Watchdog:
+        return "Timeout (no result within 3 s)"
     except RecursionError:
         return "RecursionError"
 
